@@ -1,5 +1,5 @@
 #!/usr/bin/env python3
-"""usage: tools/ingest_twin.py <PID> <1|2|3> [--src DIR]
+"""usage: tools/ingest_twin.py <PID> <1|2|...> [--src DIR]
 Verifies a behaviour-preserving refactoring produced by an independent agent
 (suite keeps its 74 baseline passes, the agent's property demo passes with it)
 and records what every check says about it under /verif/seeded_twins/<PID>-<n>/.
@@ -53,19 +53,8 @@ def main():
             return 1
     else:
         meta = json.load(open(os.path.join(dst, "meta.json")))
-    c, o = sh("git -C /repo diff --quiet")
-    assert c == 0, "/repo not clean"
-    sh("git -C /repo apply %s" % patch)
-    results = {}
-    try:
-        for i in range(1, 21):
-            p = "C%02d" % i
-            code, out = sh("/venv/bin/python -m gffsa check %s --no-write" % p, cwd="/verif")
-            if code != 0:
-                lines = [l for l in out.splitlines() if l.startswith(("VIOLATION", "ANALYSIS-ERROR", "  gffutils", "  obligation"))]
-                results[p] = {"exit": code, "report": lines[:9]}
-    finally:
-        sh("git -C /repo checkout -- .")
+    from ingest_seed import run_checks_on_copy
+    results = run_checks_on_copy(patch)
     first = meta.get("first_run")
     meta["checks_reporting"] = results
     meta["false_alarms"] = sorted(k for k, v in results.items() if v["exit"] == 1)
